@@ -6,6 +6,8 @@ import Np.Model.Arr
 import Np.Model.Options
 import Np.Model.Index
 import Np.Model.Key
+import Np.Model.Compare
+import Np.Model.Dims
 /-! line-protocol driver: one JSON case per line on stdin, the model's answer per line on stdout -/
 open Lean Np Np.Shape
 
@@ -110,6 +112,21 @@ def parseNorm (j : Json) : E Index.Norm :=
 
 def jBool (j : Json) (k : String) : E Bool := do (← j.getObjVal? k).getBool?
 
+/-- broadcast two arrays to their common shape and continue with same-length columns -/
+def withBcast2 (a b : Arr CRat) (k : (s : List Nat) → Poly (Vec CRat (size s)) → Poly (Vec CRat (size s)) → E Json) : E Json :=
+  match bshape a.shape b.shape with
+  | none => pure (showErr .valueError)
+  | some s =>
+    match a.bcast s, b.bcast s with
+    | some pa, some pb => k s pa pb
+    | _, _ => throw "broadcast index out of range"
+
+def showPolyAt (s : List Nat) (p : Poly (Vec CRat (size s))) : Json := showArr ⟨s, p⟩
+
+def sortFlags (j : Json) : Bool × Bool :=
+  let opts := (j.getObjVal? "opts").toOption.getD (Json.mkObj [])
+  (jBoolD opts "sort_graded" true, jBoolD opts "sort_reverse" false)
+
 def runCase (j : Json) : E Json := do
   let op ← (← j.getObjVal? "op").getStr?
   let opts := (j.getObjVal? "opts").toOption.getD (Json.mkObj [])
@@ -166,6 +183,61 @@ def runCase (j : Json) : E Json := do
     let old := Key.mulKey Generated.keyOffset e1 e2
     pure (Json.mkObj [("status", "ok"), ("kind", "key"), ("value", toJson r), ("old", toJson old),
       ("exact", toJson (Key.encodeKey Generated.keyOffset sums))])
+  | "compare" =>
+    let a ← parseArr (← j.getObjVal? "a")
+    let b ← parseArr (← j.getObjVal? "b")
+    let rel ← (← j.getObjVal? "rel").getStr?
+    let (g, r) := sortFlags j
+    withBcast2 a b fun s pa pb => do
+      let mask ← match rel with
+        | "gt" => pure (compareArr CRat.lt .gt g r pa pb)
+        | "ge" => pure (compareArr CRat.lt .ge g r pa pb)
+        | "lt" => pure (compareArr CRat.lt .lt g r pa pb)
+        | "le" => pure (compareArr CRat.lt .le g r pa pb)
+        | "eq" => pure (equalArr pa pb)
+        | "ne" => pure (notEqualArr pa pb)
+        | _ => throw "bad rel"
+      pure (Json.mkObj [("status", "ok"), ("kind", "mask"), ("shape", toJson s), ("value", toJson mask.toList)])
+  | "maxmin" =>
+    let a ← parseArr (← j.getObjVal? "a")
+    let b ← parseArr (← j.getObjVal? "b")
+    let which ← (← j.getObjVal? "which").getStr?
+    let (g, r) := sortFlags j
+    withBcast2 a b fun s pa pb =>
+      pure (showPolyAt s (if which == "max" then maximumArr CRat.lt rc rn g r pa pb else minimumArr CRat.lt rc rn g r pa pb))
+  | "lead" =>
+    let a ← parseArr (← j.getObjVal? "a")
+    let l := leadArr (← jBool j "graded") (← jBool j "reverse") a.poly
+    pure (Json.mkObj [("status", "ok"), ("kind", "lead"), ("shape", toJson a.shape),
+      ("exponents", toJson (l.toList.map (·.1))), ("coefficients", Json.arr (l.toList.map fun t => showCoef t.2).toArray)])
+  | "proxy" =>
+    let a ← parseArr (← j.getObjVal? "a")
+    let g ← jBool j "graded"
+    let r ← jBool j "reverse"
+    let keys := proxyKey CRat.lt g r a.poly
+    pure (Json.mkObj [("status", "ok"), ("kind", "proxy"), ("value", toJson (proxyArr CRat.lt g r a.poly)),
+      ("keys", Json.arr (keys.map fun k => Json.arr #[toJson k.1, showCoef k.2]).toArray)])
+  | "isconstant" =>
+    let a ← parseArr (← j.getObjVal? "a")
+    pure (Json.mkObj [("status", "ok"), ("kind", "bool"), ("value", toJson (isConstant a.poly))])
+  | "tonumpy" =>
+    let a ← parseArr (← j.getObjVal? "a")
+    match toNumpy a.poly with
+    | some v => pure (Json.mkObj [("status", "ok"), ("kind", "array"), ("shape", toJson a.shape),
+        ("value", Json.arr (v.toList.map showCoef).toArray)])
+    | none => pure (showErr .featureNotSupported)
+  | "setdims" =>
+    let a ← parseArr (← j.getObjVal? "a")
+    match (j.getObjVal? "names").toOption with
+    | some nm => pure (showArr ⟨a.shape, setDimsAdd rc (← jNats nm) a.poly⟩)
+    | none => pure (showArr ⟨a.shape, setDimsDrop rc (← jNat (← j.getObjVal? "dims")) a.poly⟩)
+  | "decompose" =>
+    let a ← parseArr (← j.getObjVal? "a")
+    let d := decompose a.poly
+    let shape := a.poly.terms.length :: a.shape
+    if h : a.poly.terms.length * size a.shape = size shape then
+      pure (showArr ⟨shape, h ▸ d⟩)
+    else throw "decompose: size mismatch"
   | _ => throw s!"bad-op {op}"
 
 def step (line : String) : String :=
